@@ -2148,10 +2148,13 @@ impl<'a> Searcher<'a> {
             // wildcards make a pattern of a literal, not of another column's value (`name = ext`)
             let literal = expr.right.as_ref().is_some_and(|right| right.val.is_some());
 
-            // a numeric column takes part in a numeric comparison only with numbers on both sides: an entry
-            // that has no value there (the line count of a directory), or another column's value that is
-            // no number, equals nothing and lies on neither side of anything; a literal that is no number
-            // (`uid = 'root'`) is a mistake in the query, as `is_dir = 7` is
+            // a numeric column takes part in a numeric comparison only with numbers on both sides. An entry that
+            // has no value there (the line count of a directory), and a comparison with another column that has
+            // no value for this entry, is like SQL's NULL: equal to nothing, on neither side of anything. Another
+            // column's value that is there but is no number (`size > name`) makes it a comparison of two texts,
+            // so that the condition and its negation still divide the entries between them. A LITERAL that is
+            // no number (`uid = 'root'`, `size > nan`) is a mistake in the query, as `is_dir = 7` is.
+            let mut as_text = false;
             if !matches!(op, Op::Rx | Op::NotRx | Op::Like | Op::NotLike) {
                 let numeric_column = expr
                     .left
@@ -2159,7 +2162,8 @@ impl<'a> Searcher<'a> {
                     .and_then(|left| left.field)
                     .is_some_and(|field| field.is_numeric_field());
                 let number = |text: &str| {
-                    text.parse::<f64>().is_ok() || parse_filesize_exact(text).is_some()
+                    text.parse::<f64>().is_ok_and(|number| !number.is_nan())
+                        || parse_filesize_exact(text).is_some_and(|number| !number.is_nan())
                 };
                 let no_value = numeric_column && field_value.to_string().is_empty();
                 let no_number = matches!(
@@ -2169,28 +2173,35 @@ impl<'a> Searcher<'a> {
                 if literal && (no_number || numeric_column && !number(&value.to_string())) {
                     error_exit("Can't parse number", &value.to_string());
                 }
-                if no_value || no_number {
+                if no_value || no_number && value.to_string().is_empty() {
                     return matches!(op, Op::Ne | Op::Ene);
                 }
+                as_text = no_number;
 
-                // the same for dates: an entry whose time cannot be read, or another column without a date in it
-                // (`modified > exif_datetime` for a file without EXIF data, `modified >= accessed` for an archive
-                // member) is neither before nor after anything; only a LITERAL that is no date is a mistake
+                // the same for dates (`modified > exif_datetime` for a file without EXIF data, `modified >= accessed`
+                // for an archive member: no value; `modified >= name`: two texts); only a LITERAL that is no date
+                // is a mistake
                 let datetime_column = expr
                     .left
                     .as_ref()
                     .and_then(|left| left.field)
                     .is_some_and(|field| field.is_datetime_field());
                 if datetime_column || matches!(field_value.get_type(), VariantType::DateTime) {
-                    if field_value.to_string().is_empty() || !literal && !value.is_datetime() {
+                    if literal && !value.is_datetime() {
+                        // (before anything else: also when this entry has no date to compare it with)
+                        error_exit("Can't parse datetime", &value.to_string());
+                    }
+                    if field_value.to_string().is_empty() || !literal && value.to_string().is_empty() {
                         return matches!(op, Op::Ne | Op::Ene);
                     }
+                    as_text = as_text || !literal && !value.is_datetime();
                 }
             }
 
             // pattern operators work on the text of any value (`size like '1%'`)
             let field_type = match op {
                 Op::Rx | Op::NotRx | Op::Like | Op::NotLike => &VariantType::String,
+                _ if as_text => &VariantType::String,
                 _ => field_value.get_type(),
             };
 
